@@ -204,18 +204,19 @@ func (c *checker) partF() {
 		mixed    []bool
 		ns       []int
 		maxes    []int
+		noHang   bool // only the judged messages whose script has no hanging answer (SQLite polls in virtual time: a history full of 1s timeouts is expensive there)
 	}
 	allRestarts := []string{"", "requeue-messages", "requeue-filter", "cancel-resume"}
 	single := [][]string{{"parked"}, {"before"}, {"with"}, {"restarted"}}
 	all4 := []string{"before", "with", "parked", "restarted"}
 	jobs := []job{
 		// the placement that matters most, on every route shape
-		{"memory", allRestarts, [][]string{{"parked"}}, []string{"route2", "same", "target2"}, []bool{true}, []int{1500}, []int{1}},
-		{"memory-noret", allRestarts, [][]string{{"parked"}}, []string{"route2", "same", "target2"}, []bool{true}, []int{1500}, []int{1}},
+		{"memory", allRestarts, [][]string{{"parked"}}, []string{"route2", "same", "target2"}, []bool{true}, []int{1500}, []int{1}, false},
+		{"memory-noret", allRestarts, [][]string{{"parked"}}, []string{"route2", "same", "target2"}, []bool{true}, []int{1500}, []int{1}, false},
 		// the other placements and all four together
-		{"memory", []string{"", "cancel-resume"}, append(single[1:], all4), []string{"route2"}, []bool{true}, []int{1500}, []int{1}},
-		{"memory-noret", []string{"", "cancel-resume"}, append(single[1:], all4), []string{"route2"}, []bool{false}, []int{1500}, []int{1}},
-		{"sqlite", []string{"", "cancel-resume"}, [][]string{{"parked"}}, []string{"route2"}, []bool{true}, []int{1500}, []int{1}},
+		{"memory", []string{"", "cancel-resume"}, single[1:], []string{"route2"}, []bool{true}, []int{1500}, []int{1}, false},
+		{"memory-noret", []string{"", "cancel-resume"}, append(single[1:], all4), []string{"route2"}, []bool{false}, []int{1500}, []int{1}, false},
+		{"sqlite", []string{""}, [][]string{{"parked"}}, []string{"route2"}, []bool{true}, []int{1500}, []int{1}, true},
 	}
 	if r.Thorough() {
 		var subsets [][]string
@@ -229,18 +230,30 @@ func (c *checker) partF() {
 			subsets = append(subsets, s)
 		}
 		jobs = []job{
-			{"memory", allRestarts, subsets, []string{"route2", "same", "target2"}, []bool{true, false}, []int{1100, 1500}, []int{1}},
-			{"memory-noret", allRestarts, subsets, []string{"route2", "same", "target2"}, []bool{true, false}, []int{1100, 1500}, []int{1}},
-			{"memory", allRestarts, append(single, all4), []string{"route2", "same"}, []bool{true}, []int{1500, 4200}, []int{2}},
-			{"memory-noret", allRestarts, append(single, all4), []string{"route2", "same"}, []bool{true}, []int{1500, 4200}, []int{2}},
-			{"memory-nobatch", allRestarts, append(single, all4), []string{"same"}, []bool{true}, []int{1500}, []int{1}},
-			{"sqlite", allRestarts, append(single, all4), []string{"route2", "same", "target2"}, []bool{true}, []int{1500}, []int{1}},
-			{"sqlite-noret", allRestarts, [][]string{{"parked"}, all4}, []string{"route2", "same"}, []bool{true}, []int{1500}, []int{1, 2}},
+			{"memory-noret", allRestarts, subsets, []string{"route2", "same", "target2"}, []bool{true, false}, []int{1100, 1500}, []int{1}, false},
+			{"memory", allRestarts, append(single, all4), []string{"route2", "same", "target2"}, []bool{true, false}, []int{1100, 1500}, []int{1}, false},
+			{"memory", allRestarts, single, []string{"route2", "same"}, []bool{true}, []int{1500, 4200}, []int{2}, false},
+			{"memory-noret", allRestarts, append(single, all4), []string{"route2", "same"}, []bool{true}, []int{1500, 4200}, []int{2}, false},
+			{"memory-nobatch", allRestarts, single, []string{"same"}, []bool{true}, []int{1500}, []int{1}, false},
+			{"sqlite", allRestarts, single, []string{"route2", "same", "target2"}, []bool{true}, []int{1500}, []int{1}, true},
+			{"sqlite-noret", allRestarts, [][]string{{"parked"}}, []string{"route2", "same"}, []bool{true}, []int{1500}, []int{1, 2}, true},
 		}
 	}
 	for _, j := range jobs {
 		for _, max := range j.maxes {
 			msgs := msgsFor[max]
+			if j.noHang {
+				msgs = nil
+				for _, m := range msgsFor[max] {
+					hang := false
+					for _, b := range m.Script {
+						hang = hang || b.Kind == "hang"
+					}
+					if !hang {
+						msgs = append(msgs, m)
+					}
+				}
+			}
 			if len(msgs) == 0 {
 				continue
 			}
